@@ -118,6 +118,38 @@ static inline void L0_SET__swap(void *s, void *o) {
   a->n = b->n; a->pos = b->pos; a->has = b->has; a->buf = b->buf;
   b->n = n; b->pos = pos; b->has = has; b->buf = buf;
 }
+#ifdef SETNODE_T
+/* node handles of the abstract set (the real node_type struct of the SetType: allocator + std::optional<E>) */
+static inline void L0_SET__extract__rE(void *s, const E *k, SETNODE_T *node) {
+  struct aset *a = l0_as(s);
+  L0_assert(l0_is_key(k), "UNDECIDED: extract of something that is not the key argument");
+  node->_optV._engaged = a->has;
+  if (a->has) {
+    a->n -= 1; a->has = 0;
+    l0_range_ok(&node->_optV._val, 1, "node value");
+    if (l0_cell_at(&node->_optV._val)) { L0_assert(ST_OK_CONSTRUCT(g_cell_st), "C02: construct only on raw memory"); g_cell_st = ST_LIVE; g_cell_val = nondet_int(); }
+    g_nctor++; g_ndtor++; g_as_ndtor++;      /* moved into the node, the slot inside the set destroyed */
+  }
+}
+/* extract(position): removes that element and hands it to the node */
+static inline void L0_SET__extract__pE(void *s, const E *it, SETNODE_T *node) {
+  struct aset *a = l0_as(s);
+  L0_assert(OBJ(it) == OBJ(a->buf) && OFF(it) >= OFF(a->buf) && (OFF(it) - OFF(a->buf)) / ESZ < a->n, "C11: extract(position) is given an iterator that designates an element of the set");
+  uint64_t i = (OFF(it) - OFF(a->buf)) / ESZ;
+  if (a->has && i == a->pos) a->has = 0; else if (a->has && i < a->pos) a->pos -= 1;
+  a->n -= 1;
+  node->_optV._engaged = 1;
+  l0_range_ok(&node->_optV._val, 1, "node value");
+  if (l0_cell_at(&node->_optV._val)) { L0_assert(ST_OK_CONSTRUCT(g_cell_st), "C02: construct only on raw memory"); g_cell_st = ST_LIVE; g_cell_val = nondet_int(); }
+  g_nctor++; g_ndtor++; g_as_ndtor++;
+}
+static inline _Bool L0_SET__op_bool_c(const SETNODE_T *node) { return node->_optV._engaged; }
+static inline _Bool L0_SET__empty_node_c(const SETNODE_T *node) { return !node->_optV._engaged; }
+static inline E *L0_SET__value(SETNODE_T *node) { L0_assert(node->_optV._engaged, "C03 C04: value() of an engaged node only"); return &node->_optV._val; }
+#endif
+#ifdef HAVE_A
+static inline struct A L0_SET__get_allocator_c(const void *s) { (void)s; struct A a = {0}; return a; }
+#endif
 #ifdef FINDFUNCTOR_T
 /* std::find_if over the inline elements (at most 4) with SmallSet's FindFunctor: first element equivalent to the key */
 static inline E *L0_find_if(E *f, E *l, FINDFUNCTOR_T fn) {
